@@ -153,3 +153,23 @@ def outer_sum(u, v):
 def index_grid(u, v):
     shape = (u.shape[0], v.shape[0])
     return jax.lax.broadcasted_iota(jnp.float32, shape, 1) * 2.0 + jax.lax.broadcasted_iota(jnp.float32, shape, 0) + u.sum() - v.sum()
+
+
+# ---- unique=True module whose instances are compared by content (C07: the comparison must see in-place updates)
+@onnx_function(unique=True)
+class ScaleShift(nnx.Module):
+    def __init__(self, scale, k=1.0):
+        self.w = nnx.Param(jnp.asarray(scale, dtype=jnp.float32))
+        self.k = k
+
+    def __call__(self, x):
+        return x * self.w.value + self.k
+
+
+class Tower(nnx.Module):
+    def __init__(self):
+        self.a = ScaleShift([1.0, 2.0, 3.0])
+        self.b = ScaleShift([1.0, 2.0, 3.0])
+
+    def __call__(self, x):
+        return self.a(x) * 10.0 + self.b(x)
